@@ -694,8 +694,13 @@ func main() {
 			}
 		}
 		// the three implementations of the rule, every pair
-		for _, era := range []string{"allegra", "conway", "dijkstra"} {
+		// (depth-3 scripts, and in the thorough tier the many wide depth-2 scripts,
+		// get one of the three in rotation)
+		for k, era := range []string{"allegra", "conway", "dijkstra"} {
 			era := era
+			if (s.Depth > 2 || (thorough && s.Depth > 1)) && ri%8 != 0 && ri%3 != k {
+				continue
+			}
 			jobs <- func() { e.ruleLevel(s, era, "min", maps[0], false) }
 		}
 		// the eras that delegate, other maps and encodings: every sideEvery-th script
